@@ -100,6 +100,25 @@ func build(entries []entry, scale int, prefix string, declaredBy map[string]int6
 				addRaw(w, name, data, uint64(e.Declared*scale))
 				declaredBy[filepath.Join(prefix, filepath.FromSlash(name))] = int64(e.Declared * scale)
 			}
+		case "nestedbroken":
+			// a real archive: one sound entry of three units, then an entry whose local header signature is damaged
+			var ib bytes.Buffer
+			iw := zip.NewWriter(&ib)
+			addRaw(iw, "sound.txt", bytes.Repeat([]byte{'s'}, 3*scale), uint64(3*scale))
+			addRaw(iw, "damaged.txt", bytes.Repeat([]byte{'d'}, scale), uint64(scale))
+			_ = iw.Close()
+			inner := ib.Bytes()
+			if first := bytes.Index(inner, []byte("PK\x03\x04")); first >= 0 {
+				if second := bytes.Index(inner[first+4:], []byte("PK\x03\x04")); second >= 0 {
+					inner[first+4+second+2] ^= 0xff
+				}
+			}
+			name := fmt.Sprintf("%sbroken%d-%d.zip", dir, level, i)
+			addRaw(w, name, inner, uint64(len(inner)))
+			declaredBy[filepath.Join(prefix, filepath.FromSlash(name))] = int64(len(inner))
+			stem := strings.TrimSuffix(name, ".zip")
+			declaredBy[filepath.Join(prefix, filepath.FromSlash(stem), "sound.txt")] = int64(3 * scale)
+			declaredBy[filepath.Join(prefix, filepath.FromSlash(stem), "damaged.txt")] = int64(scale)
 		case "repeat":
 			// the same name twice: one unit first, then the entry of the model (three units) which replaces it
 			name := fmt.Sprintf("%sr%d-%d.txt", dir, level, i)
